@@ -179,6 +179,55 @@ class BuilderGen:
         nops = sum(1 for t in toks if t in ("N", "J", "T", "G", "S", "R", "H", "L"))
         return kind + ("/" + mal if mal else ""), nops, " ".join(toks)
 
+    def twoway(self):
+        """One two-way jump whose branches are both far: the true branch out of reach (a bridge is needed), the false branch
+        around the reach limit, with 0..2 later long jumps whose bridges shift the distances in between. The instruction
+        in front of each destination is a return with a value of its own, so landing one instruction off shows."""
+        rng = self.rng
+        d2 = rng.randint(249, 259)
+        d1 = rng.choice([256, 257, 258, 259, 300, 400, 509, 510, 511, 512, 600])
+        if rng.random() < 0.3:
+            d1, d2 = d2, d1
+        while abs(d1 - d2) < 3:
+            d1 += 3
+        m = rng.randint(0, 2)
+        tA, tB = 2 + d1, 2 + d2
+        later = []
+        for j in range(m):
+            pj = rng.randint(2, min(tA, tB) - 6)
+            tj = pj + 1 + rng.choice([256, 257, 300, 511, 512])
+            if any(abs(pj - q) < 2 for q, _ in later) or any(abs(tj - t) < 3 for t in (tA, tB)) or any(abs(tj - t) < 3 for _, t in later):
+                continue
+            later.append((pj, tj))
+        n = max([tA, tB] + [t for _, t in later]) + 3
+        at = {}          # position -> instruction text
+        sets = {}        # position -> labels set in front of it
+        uniq = [0x50000 + 11, 0x50000 + 12, 0x50000 + 13, 0x50000 + 14, 0x30000, 0x7ffc0000]
+        for (t, lab, u1, u2) in ((tA, 2, uniq[0], uniq[1]), (tB, 3, uniq[2], uniq[3])):
+            at[t - 1] = "R %d" % u1
+            at[t] = "H %d" % rng.randint(0, 5)
+            at[t + 1] = "R %d" % u2
+            sets.setdefault(t, []).append(lab)
+        for j, (pj, tj) in enumerate(later):
+            at.setdefault(pj, "T %s %d %d" % (rng.choice(CONDS), rng.choice([0, 1, 2, 3, 7]), 4 + j))
+            if not at[pj].startswith("T "):
+                later[j] = None
+                continue
+            at.setdefault(tj, "L %d" % rng.randint(0, 5))
+            sets.setdefault(tj, []).append(4 + j)
+        ops = ["N"] * (2 + len(later)) + ["L 0", "J %s %d 2 3" % (rng.choice(CONDS), rng.choice([0, 1, 2, 3, 7]))]
+        for p in range(2, n):
+            for lab in sets.get(p, []):
+                ops.append("S %d" % lab)
+            ops.append(at.get(p, "L %d" % rng.randint(0, 5)))
+        for j, lt in enumerate(later):
+            if lt is None:
+                ops.append("S %d" % (4 + j))     # a label nobody jumps to, set at the end
+        ops.append("R %d" % uniq[5])
+        toks = " ".join(ops).split()
+        nops = sum(1 for t in toks if t in ("N", "J", "T", "G", "S", "R", "H", "L"))
+        return "twoway", nops, " ".join(toks)
+
     def events(self, count):
         rng = self.rng
         evs = []
@@ -274,6 +323,21 @@ class PolicyGen:
             groups.append(dict(action=self.action(), names=list(names_all), nwc=[]))
             if rng.random() < 0.5:
                 groups.append(dict(action=self.action(), names=rng.sample(names_all, 3), nwc=[]))
+        elif kind == "altmany":
+            # conditional syscalls with very many alternatives each (one or two conditions per alternative): blocks of
+            # 60..130 alternatives straddle the reach of an 8-bit jump offset before and after bridges are inserted
+            for _ in range(rng.randint(1, 2)):
+                nwc = []
+                for nm in rng.sample(names_all, rng.randint(2, 3)):
+                    na = rng.choice([40, 60, 61, 62, 63, 64, 65, 66, 84, 85, 86, 100, 127, 128, 130])
+                    arg = rng.randint(0, 5)
+                    base = rng.choice([0, 1, 1000, 1 << 32, (1 << 63)])
+                    for a in range(na):
+                        conds = [(arg, rng.choice(["Eq", "Eq", "Eq", "Set", "Gt"]), base + 3 * a + 1)]
+                        if rng.random() < 0.15:
+                            conds.append(self.cond())
+                        nwc.append(dict(name=nm, conds=conds))
+                groups.append(dict(action=self.action(), names=rng.sample(names_all, rng.randint(0, 3)), nwc=nwc))
         elif kind == "degenerate":
             ng = rng.randint(1, 4)
             for _ in range(ng):
@@ -552,6 +616,9 @@ class PolicyGen:
                             args[a] = argvals(v)
                     if unmasked:
                         nr = nr & ~mask & M32       # arguments that satisfy a rule written for a different number
+                    elif rng.random() < 0.2:
+                        # the same arguments under ANOTHER syscall number (one of the policy's or a neighbour)
+                        nr = rng.choice(cond_nrs) if rng.random() < 0.5 else rng.choice(pool_nr)
                 else:
                     nr = rng.choice(pool_nr) if rng.random() < 0.9 else rng.getrandbits(32)
                     args = rand_args()
